@@ -80,7 +80,7 @@ static const char* tname(TypeId t) {
     case TypeId::kFloat32: return "f32"; case TypeId::kFloat64: return "f64"; case TypeId::kInt32x4: return "i32x4"; case TypeId::kFloat32x4: return "f32x4";
     case TypeId::kFloat64x2: return "f64x2"; case TypeId::kInt8x16: return "i8x16"; case TypeId::kInt32x8: return "i32x8"; case TypeId::kFloat32x8: return "f32x8";
     case TypeId::kInt64x8: return "i64x8"; case TypeId::kFloat32x16: return "f32x16"; case TypeId::kMmx64: return "mmx64"; case TypeId::kMask16: return "mask16";
-    case TypeId::kInt32x16: return "i32x16"; case TypeId::kInt32x2: return "i32x2"; case TypeId::kInt32x1: return "i32x1";
+    case TypeId::kInt32x16: return "i32x16"; case TypeId::kFloat32x1: return "f32x1"; case TypeId::kFloat64x1: return "f64x1"; case TypeId::kInt32x2: return "i32x2"; case TypeId::kInt32x1: return "i32x1";
     default: return "?";
   }
 }
@@ -93,6 +93,7 @@ struct Dst {
   uint32_t slot_size = 0;
   TypeId type = TypeId::kVoid;     // as passed to the API (kVoid = not given)
   bool cross = false;
+  bool scalar_float_type = false;
 };
 
 struct Plan {
@@ -127,6 +128,35 @@ static std::string describe(const Plan& p) {
     s += "]";
   }
   return s;
+}
+
+// Cycles among register-to-register moves of one group: returns, for each cycle of length >= min_len, the index of one member.
+static std::vector<std::pair<size_t, int>> find_cycles(const Plan& p, int grp) {
+  std::vector<std::pair<size_t, int>> out;
+  size_t n = p.types.size();
+  std::map<uint32_t, size_t> src_of;
+  for (size_t i = 0; i < n; i++) {
+    const FuncValue& v = p.fd.arg(i);
+    if (p.dst[i].kind != 0 && v.is_reg() && !v.is_indirect() && int(RegUtils::group_of(v.reg_type())) == grp) src_of[v.reg_id()] = i;
+  }
+  std::vector<char> seen(n, 0);
+  for (size_t i = 0; i < n; i++) {
+    const FuncValue& v = p.fd.arg(i);
+    if (seen[i] || p.dst[i].kind != 1 || !v.is_reg() || int(RegUtils::group_of(v.reg_type())) != grp || int(RegUtils::group_of(p.dst[i].reg_type)) != grp) continue;
+    size_t cur = i; int len = 0; bool cyc = false;
+    std::vector<size_t> path;
+    for (int step = 0; step < 40; step++) {
+      const Dst& d = p.dst[cur];
+      if (d.kind != 1 || int(RegUtils::group_of(d.reg_type)) != grp) break;
+      auto it = src_of.find(d.reg_id);
+      if (it == src_of.end()) break;
+      len++; path.push_back(cur);
+      cur = it->second;
+      if (cur == i) { cyc = true; break; }
+    }
+    if (cyc) { for (size_t k : path) seen[k] = 1; out.push_back({i, len}); }
+  }
+  return out;
 }
 
 static bool make_plan(const vh::Case& c, Plan& p, vh::Ctx& ctx) {
@@ -244,9 +274,16 @@ static bool make_plan(const vh::Case& c, Plan& p, vh::Ctx& ctx) {
       if (view == 1) sz = 16; else if (view == 2 && (p.flags & F_AVX)) sz = 32; else if (view == 3 && (p.flags & F_AVX512)) sz = 64;
       if (p.target == T_A64) sz = 16;
       d.reg_type = sz == 16 ? RegType::kVec128 : sz == 32 ? RegType::kVec256 : RegType::kVec512;
+      // destination TypeId: none (deduced from the register: kInt32x4...), the argument's vector type, for scalar floats the one-lane
+      // vector types the Compiler gives to xmm_ss/xmm_sd registers (kFloat32x1/kFloat64x1), the widening f32 -> f64 conversion, or
+      // (rarely) the scalar kFloat32/kFloat64 themselves, which emit_arg_move refuses with kInvalidState (judged as a clean rejection)
       uint64_t ts = tsel % 8;
       if (ts == 0 || !src_vecgrp) d.type = TypeId::kVoid;
-      else if (ts == 7 && st == TypeId::kFloat32) d.type = TypeId::kFloat64;     // widening conversion
+      else if (TypeUtils::is_float(st)) {
+        if (ts == 7 && st == TypeId::kFloat32) d.type = TypeId::kFloat64x1;
+        else if (ts == 6 && (tsel / 8) % 4 == 0) { d.type = st; d.scalar_float_type = true; }
+        else d.type = st == TypeId::kFloat32 ? TypeId::kFloat32x1 : TypeId::kFloat64x1;
+      }
       else d.type = st;
     }
   }
@@ -258,12 +295,53 @@ static bool make_plan(const vh::Case& c, Plan& p, vh::Ctx& ctx) {
       Dst& d = p.dst[i];
       const FuncValue& v = p.fd.arg(i);
       bool big = (TypeUtils::is_vec(p.types[i]) && TypeUtils::size_of(p.types[i]) >= 16);
+      // a float whose destination type is deduced from the register (kInt32x4...) turns into a 16-byte move on the second hop of a swap
+      if (TypeUtils::is_float(p.types[i]) && d.kind == 1 && RegUtils::group_of(d.reg_type) == RegGroup::kVec && d.type == TypeId::kVoid) {
+        d.type = p.types[i] == TypeId::kFloat32 ? TypeId::kFloat32x1 : TypeId::kFloat64x1; ctx.known_excluded("argsassign-vec-move-ctz-zero");
+      }
       if (!big || d.kind == 0) continue;
       bool to_vec_reg = d.kind == 1 && RegUtils::group_of(d.reg_type) == RegGroup::kVec;
       bool self = to_vec_reg && v.is_reg() && RegUtils::group_of(v.reg_type()) == RegGroup::kVec && v.reg_id() == d.reg_id;
       if ((to_vec_reg && !self) || (d.kind == 2 && v.is_stack())) { d = Dst(); ctx.known_excluded("argsassign-vec-move-ctz-zero"); }
     }
   }
+  // Register -> register moves between groups are documented as unsupported (emithelper.cpp "Conversion is not supported") but are not
+  // always refused (finding argsassign-cross-group-not-rejected: assertion / silently wrong code); once known they are not generated.
+  if (ctx.is_known("argsassign-cross-group-not-rejected")) {
+    for (size_t i = 0; i < n; i++) {
+      Dst& d = p.dst[i];
+      const FuncValue& v = p.fd.arg(i);
+      if (d.kind == 1 && v.is_reg() && !v.is_indirect() && RegUtils::group_of(v.reg_type()) != RegUtils::group_of(d.reg_type)) { d = Dst(); ctx.known_excluded("argsassign-cross-group-not-rejected"); }
+    }
+  }
+  // A float/double argument that lives in an xmm register and is assigned a stack slot is stored with movaps/movapd (16 bytes) by
+  // emit_reg_move (finding argsassign-float-to-stack-movaps: overflows the 4/8-byte slot, faults when the slot is not 16-byte aligned).
+  if (p.target != T_A64 && ctx.is_known("argsassign-float-to-stack-movaps")) {
+    for (size_t i = 0; i < n; i++) {
+      Dst& d = p.dst[i];
+      const FuncValue& v = p.fd.arg(i);
+      if (d.kind == 2 && TypeUtils::is_float(p.types[i]) && v.is_reg()) { d = Dst(); ctx.known_excluded("argsassign-float-to-stack-movaps"); }
+    }
+  }
+  // float/double stack argument -> stack slot: emit_arg_move(gp64, kFloat32/64, mem, ...) has no branch for a scalar float destination
+  // type and returns kInvalidState (finding argsassign-float-stack-to-stack-error); once known such destinations are not generated.
+  if (p.target != T_A64 && ctx.is_known("argsassign-float-stack-to-stack-error")) {
+    for (size_t i = 0; i < n; i++) {
+      Dst& d = p.dst[i];
+      if (d.kind == 2 && TypeUtils::is_float(p.types[i]) && p.fd.arg(i).is_stack()) { d = Dst(); ctx.known_excluded("argsassign-float-stack-to-stack-error"); }
+    }
+  }
+  // Cycles of three or more registers are not resolved (finding argsassign-cycle3-unresolved: emit_args_assignment returns kInvalidState);
+  // once known they are opened by dropping one destination (cfg[5] == 77 marks the fixed case that keeps reporting the finding).
+  if (ctx.is_known("argsassign-cycle3-unresolved") && cg(c, 5) != 77) {
+    for (int grp = 0; grp < 2; grp++)
+      for (auto& cy : find_cycles(p, grp))
+        if (cy.second >= 3) { p.dst[cy.first] = Dst(); ctx.known_excluded("argsassign-cycle3-unresolved"); }
+  }
+  // AArch64: with dynamic stack alignment and stack-passed sources the SA register variable has no destination; when another argument
+  // wants the register it sits in, emit_args_assignment moves that argument from scratch register to scratch register forever (no
+  // swap instruction on AArch64). Finding argsassign-hang:a64; once known, dynamic alignment is not combined with AArch64 here.
+  if (p.target == T_A64 && p.local_align > 16 && !(p.flags & F_FP) && ctx.is_known("argsassign-hang:a64")) { p.local_align = 16; ctx.known_excluded("argsassign-hang:a64"); }
   p.local_size = (stack_cursor + 15) & ~15u;
   return true;
 }
@@ -303,7 +381,7 @@ static uint32_t expected_bytes(TypeId st, TypeId dt_given, RegType dst_reg_type,
     *rule = is_signed_int(st) ? "int-sign-extend" : "int-zero-extend";
     return d;
   }
-  if (st == TypeId::kFloat32 && dt == TypeId::kFloat64 && dst_is_reg) {
+  if (st == TypeId::kFloat32 && (dt == TypeId::kFloat64 || dt == TypeId::kFloat64x1) && dst_is_reg) {
     float f; memcpy(&f, src, 4); double g = double(f); memcpy(out, &g, 8);
     *rule = "float-widen"; return 8;
   }
@@ -322,71 +400,65 @@ static std::string listing_of(CodeHolder& code) {
   (void)code; return std::string();
 }
 
-// Dedicated probe (cfg[0] == 99), run in a forked child because the sanitizer aborts the process: xmm0 -> xmm3 for one __m128 argument.
-static void run_vec_move_probe(vh::Ctx& ctx) {
+// Dedicated probes (cfg = [99, k]) for finding classes whose symptom kills the process (assertion / UBSan abort): a fixed ordinary
+// case is run in a forked child with an empty known-list; any abnormal end of the child reports the probe's key.
+static void run_case(const vh::Case& c, vh::Ctx& ctx);
+struct Probe { const char* key; const char* what; vh::Case c; };
+static std::vector<Probe> make_probes() {
+  std::vector<Probe> v;
+  { Probe p; p.key = "argsassign-vec-move-ctz-zero";
+    p.what = "sysv64 f(__m128 a), a assigned xmm0 -> xmm3: RegUtils::signature_of_vec_by_size(16) evaluates Support::ctz(0) ((size | 0x40) & 0x0F is 0 for size 16/32/64)";
+    p.c.cfg = {0, 0, 0, 0, 1, 0}; p.c.ops = {{10, 1, 3, 1, 0}}; v.push_back(p); }
+  { Probe p; p.key = "argsassign-cross-group-not-rejected";
+    p.what = "sysv64 f(long a0..a6): a0 rdi -> rsi, a1 rsi -> xmm7 (GP -> vector register move, documented as unsupported), a6 [stack] -> rdi: the swap test in "
+             "emit_args_assignment compares register ids across groups (xmm7 vs rdi = id 7), exchanges rdi/rsi, marks a1 done and never rejects it";
+    p.c.cfg = {0, 0, 0, 0, 1, 0}; p.c.ops = {{6, 1, 1, 0, 0}, {6, 3, 7, 1, 0}, {6, 0, 0, 0, 0}, {6, 0, 0, 0, 0}, {6, 0, 0, 0, 0}, {6, 0, 0, 0, 0}, {6, 1, 0, 0, 0}}; v.push_back(p); }
+  return v;
+}
+static void run_probe(size_t k, vh::Ctx& ctx) {
+  std::vector<Probe> probes = make_probes();
+  if (k >= probes.size()) return;
+  const Probe& pr = probes[k];
   fflush(nullptr);
   pid_t pid = fork();
   if (pid == 0) {
-    int dn = open("/dev/null", O_WRONLY); if (dn >= 0) { dup2(dn, 2); }
-    Environment env(Arch::kX64, SubArch::kUnknown, Vendor::kUnknown, Platform::kLinux, PlatformABI::kGNU);
-    FuncSignature sig(CallConvId::kX64SystemV); sig.add_arg(TypeId::kInt32x4);
-    FuncDetail fd; if (fd.init(sig, env) != Error::kOk) _exit(3);
-    FuncFrame fr; if (fr.init(fd) != Error::kOk) _exit(3);
-    FuncArgsAssignment args(&fd); args.assign_reg(0, x86::xmm3);
-    if (args.update_func_frame(fr) != Error::kOk || fr.finalize() != Error::kOk) _exit(4);
-    CodeHolder code; code.init(env); x86::Assembler a(&code);
-    Error e = a.emit_args_assignment(fr, args);
-    if (e != Error::kOk) _exit(5);
-    const CodeBuffer& cb = code.text_section()->buffer();
-    // movaps xmm3, xmm0 = 0F 28 D8
-    _exit(cb.size() == 3 && cb.data()[0] == 0x0F && cb.data()[1] == 0x28 && cb.data()[2] == 0xD8 ? 0 : 6);
+    int dn = open("/dev/null", O_WRONLY); if (dn >= 0) dup2(dn, 2);
+    alarm(10);
+    vh::Opts o; vh::Ctx cx; cx.opts = &o;
+    int rc = 0;
+    try { run_case(pr.c, cx); } catch (const vh::Failure&) { rc = 7; }
+    _exit(rc);
   }
   int status = 0;
-  if (pid < 0 || waitpid(pid, &status, 0) < 0) { ctx.cls("vec-move-probe-fork-failed"); return; }
-  ctx.cls("vec-move-probe");
+  if (pid < 0 || waitpid(pid, &status, 0) < 0) { ctx.cls("probe-fork-failed"); return; }
+  ctx.cls(fmt("probe:%s", pr.key));
   if (WIFEXITED(status) && WEXITSTATUS(status) == 0) return;
-  ctx.fail_unless_known("argsassign-vec-move-ctz-zero",
-    fmt("f(__m128 a) with a assigned xmm0 -> xmm3: emit_args_assignment %s (RegUtils::signature_of_vec_by_size(16) evaluates Support::ctz(0): "
-        "(size | 0x40) & 0x0F is 0 for size 16/32/64)", WIFSIGNALED(status) ? fmt("killed by signal %d", WTERMSIG(status)).c_str() : fmt("child exit code %d (98 = UBSan report)", WEXITSTATUS(status)).c_str()));
+  std::string how = WIFSIGNALED(status) ? fmt("killed by signal %d (6 = assertion)", WTERMSIG(status))
+                                        : fmt("exit code %d (98 = UBSan report, 99 = ASan report, 7 = harness failure e.g. wrong value)", WEXITSTATUS(status));
+  ctx.fail_unless_known(pr.key, fmt("%s: child %s", pr.what, how.c_str()));
 }
 
 static void run_case(const vh::Case& c, vh::Ctx& ctx) {
-  if (cg(c, 0) == 99) { run_vec_move_probe(ctx); return; }
+  if (cg(c, 0) == 99) { run_probe(size_t(um(cg(c, 1))), ctx); return; }
   Plan p;
   if (!make_plan(c, p, ctx)) return;
   size_t n = p.types.size();
   ctx.cls(fmt("target:%s", p.cc->name));
+  if (getenv("C06_DEBUG")) { fprintf(stderr, "%s\n", describe(p).c_str()); }
 
   // ---- classification of the assignment (for the counters and the non-trivial rule) ----
-  bool has_stack_src = false, has_cycle = false, has_self_ext = false, has_cross = false, has_indirect = false, has_unassigned_src = false, has_stack_dst = false;
+  bool has_stack_src = false, has_cycle = false, has_cycle3 = false, has_self_ext = false, has_cross = false, has_indirect = false, has_unassigned_src = false, has_stack_dst = false;
   {
-    // cycles: follow dst -> (argument currently living in that register) within a group
-    for (int grp = 0; grp < 2; grp++) {
-      std::map<uint32_t, size_t> src_of;   // register id -> argument index
-      for (size_t i = 0; i < n; i++) {
-        const FuncValue& v = p.fd.arg(i);
-        if (v.is_reg() && !v.is_indirect() && int(RegUtils::group_of(v.reg_type())) == grp) src_of[v.reg_id()] = i;
-      }
-      for (size_t i = 0; i < n; i++) {
-        const FuncValue& v = p.fd.arg(i);
-        if (p.dst[i].kind != 1 || !v.is_reg() || int(RegUtils::group_of(v.reg_type())) != grp || int(RegUtils::group_of(p.dst[i].reg_type)) != grp) continue;
-        size_t cur = i; int len = 0; bool cyc = false;
-        for (int step = 0; step < 40; step++) {
-          const Dst& d = p.dst[cur];
-          if (d.kind != 1 || int(RegUtils::group_of(d.reg_type)) != grp) break;
-          auto it = src_of.find(d.reg_id);
-          if (it == src_of.end()) break;
-          len++;
-          cur = it->second;
-          if (cur == i) { cyc = true; break; }
-        }
-        if (cyc && len >= 2) { has_cycle = true; ctx.cls(fmt("cycle-len-%s-%d", grp == 0 ? "gp" : "vec", std::min(len, 8))); }
-        if (cyc && len == 1) {
+    for (int grp = 0; grp < 2; grp++)
+      for (auto& cy : find_cycles(p, grp)) {
+        int len = cy.second; size_t i = cy.first;
+        if (len >= 2) { has_cycle = true; ctx.cls(fmt("cycle-len-%s-%d", grp == 0 ? "gp" : "vec", std::min(len, 8))); }
+        if (len >= 3) has_cycle3 = true;
+        if (len == 1) {
           uint32_t ds = TypeUtils::size_of(p.dst[i].type == TypeId::kVoid ? RegUtils::type_id_of(p.dst[i].reg_type) : p.dst[i].type);
           if (grp == 0 && ds > TypeUtils::size_of(p.types[i])) { has_self_ext = true; }
         }
       }
-    }
     for (size_t i = 0; i < n; i++) {
       const FuncValue& v = p.fd.arg(i);
       if (p.dst[i].kind == 0) continue;
@@ -424,7 +496,15 @@ static void run_case(const vh::Case& c, vh::Ctx& ctx) {
   }
   if (has_stack_dst && max_slot_align > 16) frame.set_local_stack_alignment(std::max(p.local_align, max_slot_align));
 
-  bool expect_reject = has_cross || has_indirect || has_unassigned_src;
+  bool has_scalar_float_dst = false;
+  for (size_t i = 0; i < n; i++) if (p.dst[i].kind == 1 && p.dst[i].scalar_float_type) has_scalar_float_dst = true;
+  if (has_scalar_float_dst) ctx.cls("scalar-float-typeid-on-vector-register");
+  // MMX / mask typed arguments with a destination: only the absence of a crash is judged (MMX registers are not loaded by the host
+  // trampoline; on Win64 they travel in GP registers and emit_arg_move has no GP->GP branch for them: clean kInvalidInstruction)
+  bool has_exotic = false;
+  for (size_t i = 0; i < n; i++) if (p.dst[i].kind != 0 && (TypeUtils::is_mmx(p.types[i]) || TypeUtils::is_mask(p.types[i]))) has_exotic = true;
+  if (has_exotic) ctx.cls("mmx-or-mask-argument-with-destination");
+  bool expect_reject = has_cross || has_indirect || has_unassigned_src || has_scalar_float_dst || has_exotic;
   e = args.update_func_frame(frame);
   if (e != Error::kOk) {
     ctx.cls(fmt("update-func-frame-error-%u", unsigned(e)));
@@ -438,37 +518,66 @@ static void run_case(const vh::Case& c, vh::Ctx& ctx) {
   CodeHolder code;
   if (code.init(p.env) != Error::kOk) ctx.fail("harness-codeholder-init", "CodeHolder::init failed");
 
-  if (p.target == T_A64) {
-    a64::Assembler a(&code);
-    Error e1 = a.emit_prolog(frame);
-    Error e2 = a.emit_args_assignment(frame, args);
-    Error e3 = a.emit_epilog(frame);
-    ctx.cls(fmt("a64-build-%s", (e1 == Error::kOk && e2 == Error::kOk && e3 == Error::kOk) ? "ok" : "clean-error"));
-    if (e2 != Error::kOk) ctx.cls(fmt("a64-argsassign-error-%u", unsigned(e2)));
+  if (p.target != T_X64) {
+    // Non-host targets: nothing is executed; the three emit calls must return (kOk or an error) without assertion, sanitizer report
+    // or hang. Run in a forked child with an alarm so that a hang or an abort becomes a judged result instead of killing the worker.
+    fflush(nullptr);
+    pid_t pid = fork();
+    if (pid == 0) {
+      int dn = open("/dev/null", O_WRONLY); if (dn >= 0) dup2(dn, 2);
+      alarm(4);
+      Error e1, e2, e3;
+      if (p.target == T_A64) { a64::Assembler a(&code); e1 = a.emit_prolog(frame); e2 = a.emit_args_assignment(frame, args); e3 = a.emit_epilog(frame); }
+      else { x86::Assembler a(&code); e1 = a.emit_prolog(frame); e2 = a.emit_args_assignment(frame, args); e3 = a.emit_epilog(frame); }
+      _exit(e2 != Error::kOk ? 20 : (e1 != Error::kOk || e3 != Error::kOk) ? 21 : 0);
+    }
+    int status = 0;
+    if (pid < 0 || waitpid(pid, &status, 0) < 0) { ctx.cls("nonhost-fork-failed"); return; }
+    if (WIFSIGNALED(status) && WTERMSIG(status) == SIGALRM) {
+      ctx.fail_unless_known(fmt("argsassign-hang:%s", p.target == T_A64 ? "a64" : "x86-32"),
+        fmt("emit_prolog/emit_args_assignment/emit_epilog did not return within 4 s (endless loop) :: %s", describe(p).c_str()));
+      return;
+    }
+    if (WIFSIGNALED(status) || (WEXITSTATUS(status) != 0 && WEXITSTATUS(status) != 20 && WEXITSTATUS(status) != 21)) {
+      ctx.fail_unless_known(fmt("argsassign-crash:%s", p.target == T_A64 ? "a64" : "x86-32"),
+        fmt("emit_args_assignment aborted (%s %d; 98 = UBSan, 99 = ASan, signal 6 = assertion) :: %s", WIFSIGNALED(status) ? "signal" : "exit code",
+            WIFSIGNALED(status) ? WTERMSIG(status) : WEXITSTATUS(status), describe(p).c_str()));
+      return;
+    }
+    ctx.cls(fmt("%s-build-%s", p.target == T_A64 ? "a64" : "x86-32", WEXITSTATUS(status) == 0 ? "ok" : WEXITSTATUS(status) == 20 ? "argsassign-clean-error" : "clean-error"));
     if (has_cycle || has_stack_src) ctx.nontrivial();
     return;
   }
 
+  StringLogger logger;
+  if (getenv("C06_DEBUG")) code.set_logger(&logger);
   x86::Assembler a(&code);
   Label L_data = a.new_label();
   Error e1 = a.emit_prolog(frame);
   Error e2 = a.emit_args_assignment(frame, args);
-  if (p.target == T_X86) {
-    Error e3 = a.emit_epilog(frame);
-    ctx.cls(fmt("x86-32-build-%s", (e1 == Error::kOk && e2 == Error::kOk && e3 == Error::kOk) ? "ok" : "clean-error"));
-    if (e2 != Error::kOk) ctx.cls(fmt("x86-32-argsassign-error-%u", unsigned(e2)));
-    if (has_cycle || has_stack_src) ctx.nontrivial();
-    return;
-  }
   if (e1 != Error::kOk) ctx.fail_unless_known("argsassign-emit-error", fmt("emit_prolog error %u :: %s", unsigned(e1), describe(p).c_str()));
   if (e2 != Error::kOk) {
     ctx.cls(fmt("emit-args-assignment-error-%u", unsigned(e2)));
+    bool float_s2s = false;
+    for (size_t i = 0; i < n; i++) if (p.dst[i].kind == 2 && TypeUtils::is_float(p.types[i]) && p.fd.arg(i).is_stack()) float_s2s = true;
+    if (float_s2s && !expect_reject) {
+      ctx.fail_unless_known("argsassign-float-stack-to-stack-error", fmt("emit_args_assignment error %u: a float/double stack argument assigned to a stack slot :: %s", unsigned(e2), describe(p).c_str()));
+      return;
+    }
+    if (has_cycle3 && !expect_reject && e2 == Error::kInvalidState) {
+      ctx.fail_unless_known("argsassign-cycle3-unresolved", fmt("emit_args_assignment returns kInvalidState for a cycle of three or more registers :: %s", describe(p).c_str()));
+      return;
+    }
+    bool has_widen = false;
+    for (size_t i = 0; i < n; i++) if (p.dst[i].kind == 1 && p.types[i] == TypeId::kFloat32 && p.dst[i].type == TypeId::kFloat64x1) has_widen = true;
     if (!expect_reject)
-      ctx.fail_unless_known("argsassign-emit-error", fmt("emit_args_assignment error %u on a same-group assignment that update_func_frame accepted :: %s", unsigned(e2), describe(p).c_str()));
+      ctx.fail_unless_known(has_widen ? "argsassign-float-widen" : "argsassign-emit-error",
+                            fmt("emit_args_assignment error %u on a same-group assignment that update_func_frame accepted :: %s", unsigned(e2), describe(p).c_str()));
     return;
   }
   if (expect_reject) ctx.cls("accepted-despite-unsupported-source");
 
+  if (getenv("C06_DEBUG")) { fprintf(stderr, "%s\n", logger.data()); code.reset_logger(); }
   // ---- dump block ----
   using namespace x86;
   Error de = Error::kOk;
@@ -552,7 +661,9 @@ static void run_case(const vh::Case& c, vh::Ctx& ctx) {
   const uint8_t* data = g_exec + data_off;
   if (sig != 0) {
     uint64_t rip = msc_fault_rip();
-    std::string k = misaligned_vec_src ? "argsassign-misaligned-vector-stack-arg" : fmt("argsassign-fault:%s", p.cc->name);
+    bool float_to_stack = false;
+    for (size_t i = 0; i < n; i++) if (p.dst[i].kind == 2 && TypeUtils::is_float(p.types[i]) && p.fd.arg(i).is_reg()) float_to_stack = true;
+    std::string k = misaligned_vec_src ? "argsassign-misaligned-vector-stack-arg" : float_to_stack ? "argsassign-float-to-stack-movaps" : fmt("argsassign-fault:%s", p.cc->name);
     ctx.fail_unless_known(k, fmt("signal %d at code offset %lld (fault address 0x%llx) :: %s", sig, (long long)(rip - uint64_t(uintptr_t(g_exec))),
                                  (unsigned long long)msc_fault_addr(), describe(p).c_str()));
     return;
@@ -561,11 +672,14 @@ static void run_case(const vh::Case& c, vh::Ctx& ctx) {
     ctx.fail_unless_known(fmt("argsassign-bad-return:%s", p.cc->name), fmt("rsp after return 0x%llx, expected entry 0x%llx + 8 :: %s", (unsigned long long)st.rsp_exit, (unsigned long long)st.rsp_entry, describe(p).c_str()));
 
   // ---- judge ----
+  bool float_to_stack_present = false;
+  for (size_t i = 0; i < n; i++) if (p.dst[i].kind == 2 && TypeUtils::is_float(p.types[i]) && p.fd.arg(i).is_reg()) float_to_stack_present = true;
   for (size_t i = 0; i < n; i++) {
     const Dst& d = p.dst[i];
     if (d.kind == 0) continue;
     const FuncValue& v = p.fd.arg(i);
     if (!v.is_assigned() || v.is_indirect()) continue;
+    if (TypeUtils::is_mmx(p.types[i]) || TypeUtils::is_mask(p.types[i])) continue;
     uint8_t src[64], exp[64]; arg_bytes(p, i, src);
     const char* rule = "";
     uint32_t nb = expected_bytes(p.types[i], d.type, d.reg_type, d.kind == 1, src, exp, &rule);
@@ -581,6 +695,15 @@ static void run_case(const vh::Case& c, vh::Ctx& ctx) {
       for (uint32_t k = 0; k < nb; k++) { g += fmt("%02x", got[nb - 1 - k]); x += fmt("%02x", exp[nb - 1 - k]); }
       std::string key = fmt("argsassign-wrong-value:%s", p.cc->name);
       if (!strcmp(rule, "float-widen")) key = "argsassign-float-widen";
+      // the destination holds the raw bytes of the source register (a plain exchange/copy, the extension was skipped)
+      // (xchg r64 leaves all 64 raw bits, xchg r32 the low 32 raw bits zero-extended)
+      if ((!strcmp(rule, "int-sign-extend") || !strcmp(rule, "int-zero-extend")) && v.is_reg()) {
+        static const uint8_t zero4[4] = {0, 0, 0, 0};
+        bool raw64 = memcmp(got, src, nb) == 0;
+        bool raw32 = memcmp(got, src, 4) == 0 && (nb <= 4 || memcmp(got + 4, zero4, 4) == 0);
+        if (raw64 || raw32) key = "argsassign-swap-skips-extension";
+      }
+      if (float_to_stack_present && d.kind == 2) key = "argsassign-float-to-stack-movaps";
       ctx.fail_unless_known(key, fmt("arg %zu (%s): destination holds 0x%s, expected 0x%s (%u bytes, rule %s) :: %s", i, tname(p.types[i]), g.c_str(), x.c_str(), nb, rule, describe(p).c_str()));
     }
   }
@@ -592,8 +715,12 @@ static void run_case(const vh::Case& c, vh::Ctx& ctx) {
 void vh_run(const vh::Case& c, vh::Ctx& ctx) { run_case(c, ctx); }
 
 bool vh_enum(const vh::Opts& o, uint64_t k, vh::Case& out) {
-  if (o.worker != 0 || k != 0) return false;
-  out = vh::Case(); out.cfg = {99};
+  if (o.worker != 0 || k >= 3) return false;
+  out = vh::Case();
+  if (k < 2) { out.cfg = {99, int64_t(k)}; return true; }
+  // sysv64 f(long a, long b, long c): a rdi -> rdx, b rsi -> rdi, c rdx -> rsi (3-cycle); cfg[5] == 77: never opened by the exclusion
+  out.cfg = {0, 0, 0, 0, 1, 77};
+  out.ops = {{6, 1, 2, 0, 0}, {6, 1, 0, 0, 0}, {6, 1, 0, 0, 0}};
   return true;
 }
 
